@@ -244,6 +244,16 @@ def writeTo (c : Codec) : Nat → Reader → Option Bytes
     | (r', .direct b) => (writeTo c fuel r').map (fun t => pend ++ (b ++ t))
     | (r', .buffered) => (writeTo c fuel r').map (fun t => pend ++ t)
 
+/-- a consumer that first calls `Read` with buffer sizes `ks` (e.g. to sniff a prefix) and then drains the rest with
+`WriteTo` — what `io.Copy(dst, reader)` does, since the codec reader exposes io.WriterTo -/
+def readsThenWriteTo (c : Codec) : Reader → List Nat → Option Bytes
+  | r, [] => writeTo c (r.rest.length + 2) r
+  | r, k :: ks =>
+    match read c (r.rest.length + 2) r k with
+    | (r', .data b) => (readsThenWriteTo c r' ks).map (b ++ ·)
+    | (_, .eof) => some []
+    | (_, .err) => none
+
 /-- `WriteTo`-style consumption: chunk after chunk until EOF -/
 def drain (c : Codec) : Nat → Reader → Option Bytes
   | 0, _ => none
